@@ -1180,6 +1180,9 @@ def merge_nested_annotated(node):
     one Annotated must not mix its validators with foreign metadata, so directly nested Annotated
     nodes of different metadata kinds keep only the beartype validators (supported-grammar rule)."""
     node = _map_children(node, merge_nested_annotated)
+    # typing collapses a union of one member (Union[X] is X): the member is what the parent really holds
+    if node[0] == 'union' and len(node[1]) == 1 and node[2] != 'O':
+        return node[1][0]
     if node[0] == 'ann' and node[1][0] == 'ann':
         inner = node[1]
         meta = list(inner[2]) + list(node[2])
